@@ -47,6 +47,16 @@ Theorem C14_replacement_needs_fee_and_evicts_everywhere : forall c t v pub ch p 
   In t (all (fst (pool_add c t v pub ch p))).
 Proof. exact replacement_needs_fee_and_evicts_everywhere. Qed.
 
+(* the same rule read off the STATES, independent of what the operation reports: if [old] is pooled, the newcomer [t] has
+   the same sender and nonce (another id) and [t] is pooled after the Add, then t pays at least old's fee plus the
+   configured difference and [old] is gone - whether the sender list replaced it or the full-pool eviction dropped it
+   first (fee priority is fee/size: without the pre-eviction fee test a smaller, CHEAPER newcomer could get in that way) *)
+Theorem C14_replacement_state_based : forall c t v pub ch p old, cfg_ok c -> PoolInv c p ->
+  In old (all p) -> tsender old = tsender t -> tnonce old = tnonce t -> tid old <> tid t ->
+  In t (all (fst (pool_add c t v pub ch p))) ->
+  tfee old + min_diff c <= tfee t /\ ~ In old (all (fst (pool_add c t v pub ch p))).
+Proof. exact replacement_state_based. Qed.
+
 (* a full pool makes room: eviction always finds a victim, so Add never grows the pool beyond the limit nor blocks *)
 Theorem C14_eviction_always_succeeds : forall c ch p, PoolInv c p -> all p <> [] ->
   (length (all (fst (evict ch p))) + 1 = length (all p))%nat.
